@@ -49,7 +49,10 @@
                                   is the same for a registry of several files (calls across files), the table being the
                                   union of the files' tables
      gen_correct_partial_msg    : {msg}..{/msg} without plural and without a bundle (raw text, print and call placeholders) -- proved
-                                  below (same step); plural, and messages rendered from a translation bundle -- not proved
+                                  below (same step); messages rendered from a translation bundle -- not proved
+     gen_correct_partial_plural : {msg}{plural v}{case z}..{default}..{/plural}{/msg} without a bundle -- proved at the end as the
+                                  same three-sided step for the NODE (the plural is not a statement of the subset's syntax
+                                  cstmt, so it is not part of the programs of the file theorem)
    MiniJS idealises JavaScript: numbers are integers (a result beyond 2^53 is
    OutOfModel), objects have no prototype chain, the operators are defined on
    the operand kinds of the subset only. *)
@@ -57,7 +60,7 @@
 From Soy Require Import Proofs.SourceTieJs Proofs.SourceTieJsScope Proofs.SourceTieJsText.
 From Soy Require Import Model.Bytes Model.Num Model.Values Model.Outcome Model.Ast Model.JsGen Model.MiniJS
   Model.Escape Model.Directives Model.Print Generated.Tables Model.Interp
-  Model.MiniJSProg Proofs.MiniJSProofs Proofs.MiniJSPrint Proofs.MiniJSStmt Proofs.MiniJSCtl Proofs.MiniJSGo Proofs.MiniJSGen Proofs.MiniJSSim Proofs.MiniJSCall Proofs.MiniJSFile.
+  Model.MiniJSProg Proofs.MiniJSProofs Proofs.MiniJSPrint Proofs.MiniJSStmt Proofs.MiniJSCtl Proofs.MiniJSGo Proofs.MiniJSGen Proofs.MiniJSSim Proofs.MiniJSCall Proofs.MiniJSFile Proofs.MiniJSPlural.
 Open Scope N_scope.
 
 (* the Soy meaning restricted to the subset IS the walker of Interp.v, and the
@@ -786,3 +789,84 @@ Proof.
   split; [intros t [<-|[<-|[]]]; (split; [reflexivity|split; [apply Nat.ltb_lt; reflexivity|reflexivity]])|].
   split; [reflexivity|]. vm_compute. reflexivity.
 Qed.
+
+(* ================================================================== *)
+(* a message whose child is a {plural}, rendered without a bundle *)
+
+(* {msg desc=".."}{plural v}{case z1}b1..{case zk}bk{default}d{/plural}{/msg}, bodies of raw text and print / call placeholders
+   (msg_ok), v an expression of the subset whose value is an integer i (any other value is an error of the Go renderer and
+   outside the statement): the same simulation step as the other stages, for the node c04_plural_node.
+   (Go)  soyhtml walkPlural renders the first case whose number equals i, else the default (c04_plpick): the walker writes
+         exactly the text of that body;
+   (JS)  the MiniJS statement  switch (v) { case z1: jb1 break; .. default: jd break; }  (JSSwitch over JENum cases, the blocks
+         generated one after the other from the generator's counter: c04_plgen) appends exactly that text;
+   (Gen) walking the node in Model/JsGen.v (visitMsgNode / walkPlural without a bundle) emits exactly c04_plprint: that
+         switch WITHOUT the "break;" after the default clause -- C04_plural_text_vs_sprint: the printed form of the MiniJS
+         statement is the emitted text with that one line added (last clause: no effect);
+   and the resulting states are related by sim again, with the generator's scope unchanged and its counter behind the last body.
+   NOT part of it: the plural inside a program of Model/MiniJSProg.v (cstmt has no constructor for it: the file theorem
+   does not cover templates with plural messages), nested plurals, plural with a bundle (soy.$$pluralIndex cases). *)
+Theorem C04_gen_correct_partial_plural : forall cf o cc lv, c_oblig cf = [] -> callctx_ok cf o cc ->
+  forall pname v cs d D st je jst fuel i text env' old,
+  sim cf cc st je jst old ->
+  (cdepth v < D)%nat -> cwf lv v = true ->
+  (forall zb, In zb cs -> msg_ok (snd zb) = true /\ bwf lv (snd zb) = true /\ (bdepth (snd zb) <= D)%nat) ->
+  msg_ok d = true -> bwf lv d = true -> (bdepth d <= D)%nat ->
+  (cc_fuel cc + S (S (S D)) < fuel)%nat -> lvok lv (j_scope jst) ->
+  ceval (c_ij cf) (sc_lookup (ctx st)) v = Some (VInt i) ->
+  sout (c_ij cf) (mode st) go_print_text (cc_denv cc) (cc_callee cc) (sc_lookup (ctx st)) (SMsg (c04_plpick i cs d)) = Some (text, env') ->
+  forall jcs n1 jd n2,
+  c04_plgen (mode st) (j_buf jst) (j_scope jst) (j_n jst) cs = (jcs, n1) -> bgen (mode st) (j_buf jst) (j_scope jst) n1 d = (jd, n2) ->
+  let nd := c04_plural_node pname v cs d in
+  let j := JSSwitch (cgen (j_scope jst) v) (c04_plk jcs jd) in
+  exists st' ws rv je' jst',
+    walk cf fuel nd st = (Ok rv, st') /\ wrote st st' ws /\ concat_b ws = text
+    /\ mode st' = mode st /\ tl (ctx st') = tl (ctx st) /\ (forall k, sc_lookup (ctx st') k = env' k)
+    /\ js_exec (cc_jfn cc) je j = Ok je' /\ je_data je' = je_data je
+    /\ jwalk o fuel nd jst = Ok (tt, jst') /\ j_out jst' = rev (c04_plprint (j_indent jst) (cgen (j_scope jst) v) jcs jd) ++ j_out jst
+    /\ j_indent jst' = j_indent jst /\ j_buf jst' = j_buf jst /\ j_scope jst' = j_scope jst /\ j_n jst' = n2
+    /\ sim cf cc st' je' jst' (old ++ text) /\ lvok lv (j_scope jst').
+Proof. exact gen_correct_partial_plural. Qed.
+Print Assumptions C04_gen_correct_partial_plural.
+Theorem C04_plural_text_vs_sprint : forall ind jv jcs jd,
+  sprint ind (JSSwitch jv (c04_plk jcs jd))
+  = sp_ind ind ++ [CText t_switch_open] ++ jprint jv ++ [CText t_for_close; CText t_nl]
+    ++ c04_plprint_cases (S ind) jcs
+    ++ (sp_ind (S ind) ++ [CText t_default] ++ [CText t_nl]) ++ bprint (S (S ind)) jd
+    ++ (sp_ind (S (S ind)) ++ [CText t_break] ++ [CText t_nl])
+    ++ (sp_ind ind ++ [CText t_rbrace] ++ [CText t_nl]).
+Proof. exact c04_plprint_sprint. Qed.
+
+(* non-vacuity: {msg desc=""}{plural $x}{case 1}one{case 4}four: {$x}{default}{$a.b} items{/plural}{/msg} with x = 4, a.b = 5 *)
+Definition ex_pl_cases : list (Z * cblk) :=
+  [(1%Z, BCons (SRaw (b "one")) BNil); (4%Z, BCons (SRaw (b "four: ")) (BCons (SPrint (CVar (b "x") []) []) BNil))].
+Definition ex_pl_dflt : cblk := BCons (SPrint (CVar (b "a") [CAKey false (b "b")]) []) (BCons (SRaw (b " items")) BNil).
+Definition ex_pl_tmpl : template :=
+  {| t_name := b "ns.pl"; t_node := NTemplate 0 (b "ns.pl") (NList 0 [c04_plural_node (b "x") (CVar (b "x") []) ex_pl_cases ex_pl_dflt]) 0 false;
+     t_ns_name := []; t_ns_autoescape := 1; t_params := []; t_file := [] |}.
+Example C04_plural_nonvacuous :
+  ceval None ex_env (CVar (b "x") []) = Some (VInt 4)
+  /\ (match sout None 1 go_print_text (fun _ => None) (fun _ _ => None) ex_env (SMsg (c04_plpick 4 ex_pl_cases ex_pl_dflt)) with Some (t, _) => Some t | None => None end) = Some (b "four: 4")
+  /\ (let r := render {| c_reg := {| r_templates := [ex_pl_tmpl]; r_sources := []; r_files := [] |}; c_ij := None; c_oblig := []; c_msgs := None |}
+                      40 (b "ns.pl") 1 [(b "a", VMap 2 [(b "b", VInt 5)]); (b "x", VInt 4)] None None 10 in
+       (rr_outcome r, concat_b (rr_writes r))) = (Ok tt, b "four: 4")
+  /\ (let '(jcs, n1) := c04_plgen 1 (b "output") [[]] 3 ex_pl_cases in
+      let '(jd, _) := bgen 1 (b "output") [[]] n1 ex_pl_dflt in
+      (match js_exec (fun _ _ _ => OutOfModel) {| je_vars := [(b "output", JStr [])]; je_data := JObj [(b "a", JObj [(b "b", JNum 5)]); (b "x", JNum 4)] |}
+                     (JSSwitch (cgen [[]] (CVar (b "x") [])) (c04_plk jcs jd)) with Ok je' => Some (je_vars je') | _ => None end,
+       render_chunks is_print_tbl (c04_plprint 1 (cgen [[]] (CVar (b "x") [])) jcs jd)))
+     = (Some [(b "output", JStr (b "four: 4"))], b
+"  switch (opt_data.x) {
+    case 1:
+      output += 'one';
+      break;
+    case 4:
+      output += 'four: ';
+      output += soy.$$escapeHtml(opt_data.x);
+      break;
+    default:
+      output += soy.$$escapeHtml(opt_data.a.b);
+      output += ' items';
+  }
+").
+Proof. vm_compute. repeat split; reflexivity. Qed.
